@@ -1,7 +1,9 @@
 package props
 
 import (
+	"context"
 	"fmt"
+	"github.com/aundis/formula"
 	"math"
 	"math/rand"
 	"reflect"
@@ -49,12 +51,28 @@ type PathCase struct {
 	Base  string `json:"base"`
 	Segs  []Seg  `json:"segs"`
 	NoMap bool   `json:"nomap,omitempty"`
+	// Wrap, when set, is a value-preserving construct (parentheses, a conditional, ??, a comma, an assignment) put
+	// around the first WrapAt segments: member access works on any operand, not only on names
+	Wrap   string `json:"wrap,omitempty"`
+	WrapAt int    `json:"wrap_at,omitempty"`
 }
+
+var pathWraps = []string{"(%s)", "(true ? %s : 0)", "(z_absent ?? %s)", "(0, %s)", "($q = %s)", "((%s))", "(false ? 0 : %s)"}
 
 func (c *PathCase) Src() string {
 	s := c.Base
-	for _, g := range c.Segs {
+	wrap := c.Wrap
+	if c.Base == "this" && strings.Contains(wrap, "=") {
+		wrap = "(%s)" // storing the data map in itself makes it cyclic (known finding of C03)
+	}
+	for i, g := range c.Segs {
+		if wrap != "" && i == c.WrapAt {
+			s = strings.ReplaceAll(wrap, "%s", s)
+		}
 		s += g.Op + g.Key
+	}
+	if wrap != "" && c.WrapAt >= len(c.Segs) {
+		s = strings.ReplaceAll(wrap, "%s", s)
 	}
 	return s
 }
@@ -423,6 +441,94 @@ func c16Data(r *rand.Rand) val.V {
 
 var c16Keys = []string{"Qty", "Price", "Note", "City", "Floor", "Name", "Age", "p", "a", "b", "c", "k", "z", "name", "x1", "len", "max", "now", "A", "S", "F", "M", "P", "Any", "Nil", "N", "T", "priv", "Zz", "missing", "tm", "st", "np", "$v"}
 
+// FollowCase: a name denotes the entry of the data map as it is now - whatever earlier evaluations on the same runner
+// read or assigned, and however the host changed the map since (another map, a single entry, its own map directly).
+type FollowCase struct {
+	Name   string `json:"name"`   // "$x" or "a"
+	First  string `json:"first"`  // formula evaluated first (reads and/or assigns the name)
+	Change string `json:"change"` // setvalue | setthis-with | setthis-without | direct-set | direct-delete | setthis-nil | none
+}
+
+var c16Follow = core.Mon(c16, "names-follow-the-map", func(w *core.W, c *FollowCase) {
+	m1 := map[string]interface{}{"a": 5, "b": "bee", "$x": 1, "m": map[string]interface{}{"k": 2}}
+	r := formula.NewRunner()
+	r.SetThis(m1)
+	ctx := context.Background()
+	eval := func(src string) (interface{}, error) {
+		sc, err := hostParse([]byte(src), true)
+		if err != nil {
+			return nil, err
+		}
+		var v interface{}
+		var rerr error
+		if p, pv := core.Call(func() { v, rerr = r.Resolve(ctx, sc.Expression) }); p {
+			return nil, fmt.Errorf("panic: %v", pv)
+		}
+		return v, rerr
+	}
+	w.Eval(2)
+	w.Count("follow_cases")
+	w.Nontrivial("follow:" + core.HashStr(c))
+	if _, err := eval(c.First); err != nil {
+		w.Skip("follow-first-formula-fails")
+		return
+	}
+	cur := m1
+	switch c.Change {
+	case "setvalue":
+		r.SetThisValue(c.Name, "host")
+	case "setthis-with":
+		cur = map[string]interface{}{c.Name: "other", "b": "b2"}
+		r.SetThis(cur)
+	case "setthis-without":
+		cur = map[string]interface{}{"b": "b3"}
+		r.SetThis(cur)
+	case "direct-set":
+		m1[c.Name] = "direct"
+	case "direct-delete":
+		delete(m1, c.Name)
+	case "setthis-nil":
+		cur = nil
+		r.SetThis(nil)
+	}
+	want, has := cur[c.Name]
+	src := "[" + c.Name + ", this." + c.Name + ", typeof " + c.Name + ", " + c.Name + " == null]"
+	v, err := eval(src)
+	if err != nil {
+		w.Violation("names-follow-the-map", "C16/name-read-error", c, "a value", err.Error(), src)
+		return
+	}
+	arr, _ := v.([]interface{})
+	if len(arr) != 4 {
+		return
+	}
+	ok := true
+	for _, g := range arr[:2] {
+		switch {
+		case !has || want == nil:
+			ok = ok && g == nil
+		default:
+			if s, isStr := want.(string); isStr {
+				ok = ok && g == s
+			} else {
+				var wd *decimal.Big
+				switch x := want.(type) {
+				case int:
+					wd = decimal.New(int64(x), 0)
+				case *decimal.Big:
+					wd = x
+				}
+				d, isDec := g.(*decimal.Big)
+				ok = ok && isDec && d != nil && wd != nil && d.Cmp(wd) == 0
+			}
+		}
+	}
+	if !ok || arr[3] != (!has || want == nil) {
+		w.Violation("names-follow-the-map", "C16/name-does-not-follow-the-data-map", c, fmt.Sprintf("the map's entry: %v (present: %v)", want, has), show(v),
+			fmt.Sprintf("after Resolve(%q) and the host change %q, %s must read the data map as it is now", c.First, c.Change, src))
+	}
+})
+
 func init() { c16.Run = runC16 }
 
 func runC16(w *core.W) {
@@ -447,6 +553,10 @@ func runC16(w *core.W) {
 				for _, op1 := range []string{".", "!."} {
 					i++
 					run(&PathCase{Data: data, Base: b, Segs: []Seg{{op1, k1}}}, i)
+					if (i+round)%5 == 0 {
+						run(&PathCase{Data: data, Base: b, Segs: []Seg{{op1, k1}}, Wrap: pathWraps[(i/5)%len(pathWraps)]}, i)
+						w.Count("wrapped_operand_paths")
+					}
 					if round%4 == 0 {
 						for j := 0; j < 3; j++ {
 							k2 := c16Keys[r.Intn(len(c16Keys))]
@@ -479,6 +589,12 @@ func runC16(w *core.W) {
 				}
 			}
 			run(c, j)
+			if j%2 == 0 {
+				wc := *c
+				wc.Wrap, wc.WrapAt = pathWraps[r.Intn(len(pathWraps))], r.Intn(len(c.Segs)+1)
+				run(&wc, j)
+				w.Count("wrapped_operand_paths")
+			}
 		}
 		// two reads in one formula: the same path with '.' and '!.' swapped, and a local re-bound between two reads
 		for j := 0; j < 120; j++ {
@@ -524,4 +640,16 @@ func runC16(w *core.W) {
 		}
 	}
 	_ = strings.Join
+	fi := 0
+	for _, name := range []string{"$x", "a", "$fresh"} {
+		for _, first := range []string{"%n", "%n = 7", "%n = a + 1, %n", "[%n, this.%n]", "$y = %n", "%n = %n", "1"} {
+			for _, ch := range []string{"setvalue", "setthis-with", "setthis-without", "direct-set", "direct-delete", "setthis-nil", "none"} {
+				fi++
+				f := strings.ReplaceAll(first, "%n", name)
+				if w.Mine(fi) && (strings.HasPrefix(name, "$") || !strings.Contains(f, "a =")) {
+					c16Follow(w, &FollowCase{Name: name, First: f, Change: ch})
+				}
+			}
+		}
+	}
 }
